@@ -470,52 +470,43 @@ theorem handler_delivers_once (acts : List Act) : (run acts).delivered.length = 
   rw [close_of_not_live _ _ (by rw [close_of_not_live _ _ h1.1]; exact h1.1), close_of_not_live _ _ h1.1]
   exact h1.2
 
-/-- A trace handed over by the end of the response (`tryFinish`: the handler returned, panicked,
-or a write failed) is final: what its consumer sees when everything is over is what it saw at
-the moment of completion — the trailers are copied in before the completing event is added,
-and the response object is never written to afterwards.  For every handler script. -/
-theorem handler_trace_final_of_resp_end (acts : List Act) :
-    ∀ d ∈ (run acts).delivered, d.snap.closer.isRespEnd = true → viewAtEnd (run acts) d = d.snap :=
-  fun d hd hr => (inv_run acts d hd hr).2.2
+/-- The trace handed over is final, for EVERY handler script — including operations that are
+ended early by the request side (`readErr`, `closeReq`) or by cancellation at any point, before
+or after the response has started: what the consumer of a delivered trace sees when everything
+is over is what it saw at the moment of completion.  Completion is the last write: the trailers
+are copied into the response object only while the builder still holds the trace
+(`builder.whileBuilding`, the repair of finding F28), and after the hand-off nothing the trace
+refers to is written. -/
+theorem handler_trace_final (acts : List Act) :
+    ∀ d ∈ (run acts).delivered, viewAtEnd (run acts) d = d.snap :=
+  inv_fin (run acts) (inv_run acts)
 
-/-- FULL statement wanted: `∀ acts, isFinal (run acts) = true` — the trace handed over is final
-for every handler script.  It does NOT hold for the code as it is (witness below, finding F28):
-when the operation is ended early by the request side or by cancellation *after* the response
-has started, `tryFinish` still runs `setTrailers` later, and that writes into the
-`http.Response` the handed-over trace points to.  Proved: without such an early end the one
-trace is handed over by the end of the response and is final. -/
-theorem handler_trace_final_partial (acts : List Act) (h : ∀ a ∈ acts, isEarlyEnd a = false) :
-    isFinal (run acts) = true ∧
-    ∃ d, (run acts).delivered = [d] ∧ d.snap.closer.isRespEnd = true := by
-  have hheld := held_runActs acts init h (Or.inl ⟨rfl, rfl, rfl⟩)
-  have h1 := held_tryFinish (if (runActs init acts).2 = true then Closer.respEndPanic else Closer.respEnd)
-    (by split <;> rfl) _ hheld
-  have hrun : run acts = tryFinish (if (runActs init acts).2 = true then Closer.respEndPanic else Closer.respEnd)
-      (runActs init acts).1 := by
-    unfold run finish
-    rw [close_of_not_live _ _ (by rw [close_of_not_live _ _ h1.1]; exact h1.1), close_of_not_live _ _ h1.1]
-  obtain ⟨hl, d, hd, hr⟩ := h1
-  rw [← hrun] at hd
-  refine ⟨?_, d, hd, hr⟩
-  have hfin := handler_trace_final_of_resp_end acts d (by rw [hd]; simp) hr
+/-- … in the form the check evaluates: the list of deliveries as seen at the end equals the
+list of copies taken at completion, and there is exactly one. -/
+theorem handler_trace_is_final (acts : List Act) :
+    isFinal (run acts) = true ∧ (run acts).delivered.length = 1 := by
+  refine ⟨?_, handler_delivers_once acts⟩
   unfold isFinal finalView atCompletion
-  rw [hd]
-  simp [hfin]
+  have h := handler_trace_final acts
+  have : (run acts).delivered.map (viewAtEnd (run acts)) = (run acts).delivered.map (·.snap) :=
+    List.map_congr_left h
+  simp [this]
 
-/-- non-vacuity: a gRPC-style handler: announced and prefixed trailers, set after the body -/
+/-- a gRPC-style handler: announced and prefixed trailers, set after the body, are in the trace
+when it is handed over -/
 example :
-    let acts : List Act := [.declare ["Grpc-Status"], .write true, .set (.plain "Grpc-Status") "0",
-      .set (.pre "Grpc-Message") "fine"]
-    (∀ a ∈ acts, isEarlyEnd a = false) ∧
-    atCompletion (run acts) = [⟨.respEnd, some ⟨200, [(.plain "Trailer", ["Grpc-Status"])],
+    atCompletion (run [.declare ["Grpc-Status"], .write true, .set (.plain "Grpc-Status") "0",
+      .set (.pre "Grpc-Message") "fine"]) = [⟨.respEnd, some ⟨200, [(.plain "Trailer", ["Grpc-Status"])],
       [("Grpc-Message", ["fine"]), ("Grpc-Status", ["0"])]⟩⟩] := by decide
 
-/-- the witness of finding F28: the request body is closed after the response has started (the
-trace is completed there), the handler then sets a trailer and returns — the handed-over trace
-changes afterwards -/
-theorem handler_trace_not_final_witness :
-    isFinal (run [.declare ["X-T"], .writeHeader 200, .closeReq, .set (.plain "X-T") "1"]) = false := by
-  decide
+/-- the former witness of finding F28 (the request body is closed after the response has
+started, the handler then sets a trailer and returns): the trace completed by the early end keeps
+the trailers it had then.  Before the repair (`tryFinish` calling `setTrailers` unconditionally)
+`isFinal` of this run was `false`: the view at the end had `X-T = ["1"]`. -/
+example :
+    let s := run [.declare ["X-T"], .writeHeader 200, .closeReq, .set (.plain "X-T") "1"]
+    isFinal s = true ∧
+    finalView s = [⟨.reqEndErr, some ⟨200, [(.plain "Trailer", ["X-T"])], [("X-T", [])]⟩⟩] := by decide
 
 /-- `WriteHeader` seeds the trace's trailers with exactly the announced names -/
 theorem writeHeader_announces (st : Nat) (s : St) (h : s.started = false) (n : String) :
@@ -526,17 +517,19 @@ theorem writeHeader_announces (st : Nat) (s : St) (h : s.started = false) (n : S
 
 /-- … and when the response ends, the trailers copied into the trace are exactly what belongs to
 the response as trailers (`trailerSpec`: announced names with their plain and prefixed values,
-other names through their prefixed entry only), read from the header map as it is then. -/
+other names through their prefixed entry only), read from the header map as it is then — when
+the builder still holds the trace (otherwise the trace is gone and nothing is written). -/
 theorem tryFinish_trailers_complete (c : Closer) (s : St) (declared : List String)
-    (hf : s.finished = false) (hn : NodupKeys s.hdr)
+    (hf : s.finished = false) (hl : s.live = true) (hn : NodupKeys s.hdr)
     (hd : ∀ n, ((writeHeader 200 s).resp.trailer.lookup n).isSome = declared.contains n) (n : String) :
     (tryFinish c s).resp.trailer.lookup n = trailerSpec declared s.hdr n := by
   have hwh : (writeHeader 200 s).hdr = s.hdr := by unfold writeHeader; split <;> rfl
+  have hl' : (writeHeader 200 s).live = true := by rw [writeHeader_live]; exact hl
   have : (tryFinish c s).resp.trailer = setTrailers (writeHeader 200 s).resp.trailer s.hdr := by
     unfold tryFinish
     simp only [hf, Bool.false_eq_true, if_false]
-    unfold close
-    split <;> simp [hwh]
+    unfold close markFinished whileBuilding
+    simp [hl', hwh]
   rw [this]
   exact setTrailers_lookup _ _ declared n hn (hd n)
 
@@ -556,7 +549,7 @@ theorem handler_hdr_nodup : ∀ (acts : List Act) (s : St), NodupKeys s.hdr → 
   | .closeReq :: as, s, h => handler_hdr_nodup as _ (nodup_step s _ h)
   | .cancel :: as, s, h => handler_hdr_nodup as _ (nodup_step s _ h)
 
-example : NodupKeys init.hdr ∧ init.finished = false := ⟨List.nodup_nil, rfl⟩
+example : NodupKeys init.hdr ∧ init.finished = false ∧ init.live = true := ⟨List.nodup_nil, rfl, rfl⟩
 
 example : trailerSpec ["X-T"] [(.plain "X-T", ["a"]), (.pre "X-T", ["b"]), (.pre "X-P", ["p"]), (.plain "X-Q", ["q"])] "X-T" = some ["a", "b"] ∧
     trailerSpec ["X-T"] [(.plain "X-T", ["a"]), (.pre "X-P", ["p"]), (.plain "X-Q", ["q"])] "X-P" = some ["p"] ∧
